@@ -335,6 +335,14 @@ public:
 	*/
 	void copy(const T* p, int n)
 	{
+		if (p >= _a && p < _a + length()) // p points into this same array: move the elements down, then shrink
+		{
+			int j = int(p - _a);
+			for (int i = 0; i < n; i++)
+				_a[i] = _a[j + i];
+			resize(n);
+			return;
+		}
 		resize(n);
 		for (int i = 0; i < n; i++)
 			_a[i] = p[i];
